@@ -301,3 +301,183 @@ Proof.
       intros Hpos Hlim.
       apply (change_liability_shares_limit b1 lsh b2); try assumption; [rewrite Hlsh'; exact Hpos | rewrite Hb1; cbn; rewrite C10; exact Hlim].
 Qed.
+
+(* ------------------------------------------------------------------------------------------ *)
+(* full withdrawal / full repayment / close *)
+Record wall_facts (b : bank) (bl : balance) (b' : bank) (bl' : balance) (n : Z) : Prop := {
+  wa_payout : n = (bl_a bl * b_asv b / ONE) / ONE;                      (* floor of the asset amount, in tokens *)
+  wa_dust : b_ins b' = b_ins b + (bl_a bl * b_asv b / ONE) mod ONE;     (* fraction booked to insurance fees *)
+  wa_tas : b_tas b' = b_tas b - bl_a bl;
+  wa_tls : b_tls b' = b_tls b;
+  wa_sv : b_asv b' = b_asv b /\ b_lsv b' = b_lsv b;
+  wa_fees : b_grp b' = b_grp b /\ b_prog b' = b_prog b;
+  wa_closed : bl' = bal_empty;
+  wa_pos : ZERO_AMOUNT_THRESHOLD < bl_a bl * b_asv b / ONE;
+  wa_liab_dust : bl_l bl * b_lsv b / ONE < ZERO_AMOUNT_THRESHOLD;
+  wa_util : b_tls b' * b_lsv b' / ONE <= b_tas b' * b_asv b' / ONE;
+  wa_range : 0 <= n <= U64_MAX
+}.
+
+Lemma floor_frac x : x / ONE * ONE + x mod ONE = x.
+Proof. pose proof (Z.div_mod x ONE). pose proof ONE_pos. lia. Qed.
+
+Lemma cfloor_inv x r : cfloor x = Ok r -> r = x / ONE * ONE.
+Proof. unfold cfloor, ffloor_raw. intros H. apply chko_inv in H as [-> _]. reflexivity. Qed.
+
+Lemma cceil_inv x r : cceil x = Ok r -> r = (if x mod ONE =? 0 then x else x / ONE * ONE + ONE).
+Proof. unfold cceil, ffloor_raw, ffrac. intros H. apply chko_inv in H as [-> _]. reflexivity. Qed.
+
+Lemma to_u64_inv x n : to_u64_checked x = Ok n -> n = x / ONE /\ 0 <= n <= U64_MAX.
+Proof. unfold to_u64_checked, to_int, in_u64, in_range. intros H. apply chko_inv in H as [-> H]. split; [reflexivity | lia]. Qed.
+
+Lemma dec_lend_fields b : let b' := dec_lend b in
+  b_asv b' = b_asv b /\ b_lsv b' = b_lsv b /\ b_tas b' = b_tas b /\ b_tls b' = b_tls b /\
+  b_ins b' = b_ins b /\ b_grp b' = b_grp b /\ b_prog b' = b_prog b.
+Proof. cbn -[Z.mul Z.div Z.modulo Z.add Z.sub ONE]. repeat split; reflexivity. Qed.
+
+Lemma withdraw_all_inv b bl now b' bl' n :
+  wf_sv b -> wf_bal bl ->
+  withdraw_all b bl now = Ok (b', bl', n) -> wall_facts b bl b' bl' n.
+Proof.
+  intros [Hasv Hlsv] [Hba Hbl] H. unfold withdraw_all in H.
+  apply bind_ok in H as ([b0 bl0] & Hc & H).
+  apply claim_emissions_core in Hc as [Hcb Hcl].
+  destruct Hcb as (C1 & C2 & C3 & C4 & C5 & C6 & C7 & _).
+  destruct Hcl as (D1 & D2 & D3 & D4 & D5).
+  apply bind_ok in H as (cur_a & Hcur & H).
+  assert (Hcr : I128_MIN <= cur_a <= I128_MAX).
+  { unfold get_asset_amount in Hcur. apply math_ok, cmul_inv in Hcur as [_ ?]. assumption. }
+  apply get_asset_amount_inv in Hcur.
+  apply bind_ok in H as (cur_l & Hcurl & H).
+  assert (Hclr : I128_MIN <= cur_l <= I128_MAX).
+  { unfold get_liability_amount in Hcurl. apply math_ok, cmul_inv in Hcurl as [_ ?]. assumption. }
+  apply get_liability_amount_inv in Hcurl.
+  apply bind_ok in H as (u1 & Hp & H). apply check_ok in Hp.
+  apply bind_ok in H as (u2 & Hz & H). apply check_ok in Hz.
+  apply bind_ok in H as (blc & Hclose & H).
+  apply bind_ok in H as (nsh & Hnsh & H). apply chk_inv in Hnsh as [Hnsh _].
+  apply bind_ok in H as (b2 & Hb2 & H). apply change_asset_shares_inv in Hb2.
+  apply bind_ok in H as (u3 & Hut & H). destruct u3. apply check_utilization_inv in Hut.
+  apply bind_ok in H as (fl & Hfl & H). apply math_ok, cfloor_inv in Hfl.
+  apply bind_ok in H as (dust & Hdust & H). apply math_ok, csub_inv in Hdust as [Hdust _].
+  apply bind_ok in H as (ins & Hins & H). apply math_ok, cadd_inv in Hins as [Hins _].
+  apply bind_ok in H as (n0 & Hn & H). apply math_ok, to_u64_inv in Hn as [Hn Hnr].
+  apply Ok_inj in H. inversion H; subst b' bl' n; clear H.
+  assert (Hcl0 : 0 <= cur_l).
+  { subst cur_l. apply Z.div_pos; [apply Z.mul_nonneg_nonneg; lia | apply ONE_pos]. }
+  assert (Hblc : blc = bal_empty).
+  { unfold balance_close in Hclose. apply bind_ok in Hclose as (? & _ & Hclose). apply Ok_inj in Hclose. auto. }
+  assert (Eca : cur_a = bl_a bl * b_asv b / ONE) by (rewrite Hcur, D4, C1; reflexivity).
+  assert (Ecl : cur_l = bl_l bl * b_lsv b / ONE) by (rewrite Hcurl, D5, C2; reflexivity).
+  pose proof (floor_frac cur_a). pose proof ONE_pos.
+  constructor; rewrite <- ?Eca, <- ?Ecl; cbn [b_ins b_tas b_tls b_asv b_lsv b_grp b_prog set_b_ins].
+  - rewrite Hn, Hfl. rewrite Z.div_mul by lia. reflexivity.
+  - rewrite Hins, Hdust, Hfl, Hb2. cbn -[Z.mul Z.div Z.modulo Z.add Z.sub ONE]. rewrite C5. lia.
+  - rewrite Hb2. cbn -[Z.mul Z.div Z.modulo Z.add Z.sub ONE]. rewrite Hnsh, C3, D4. lia.
+  - rewrite Hb2. cbn -[Z.mul Z.div Z.modulo Z.add Z.sub ONE]. exact C4.
+  - rewrite Hb2. cbn -[Z.mul Z.div Z.modulo Z.add Z.sub ONE]. split; assumption.
+  - rewrite Hb2. cbn -[Z.mul Z.div Z.modulo Z.add Z.sub ONE]. split; assumption.
+  - exact Hblc.
+  - unfold is_pos_tol in Hp. lia.
+  - apply fabs_small in Hz; [lia|]. rewrite I128_MIN_val. lia.
+  - exact Hut.
+  - rewrite Hn, Hfl in *. exact Hnr.
+Qed.
+
+Record rall_facts (b : bank) (bl : balance) (b' : bank) (bl' : balance) (n : Z) : Prop := {
+  ra_charge : n * ONE = (let x := bl_l bl * b_lsv b / ONE in if x mod ONE =? 0 then x else x / ONE * ONE + ONE);
+  ra_dust : b_ins b' = b_ins b + (n * ONE - bl_l bl * b_lsv b / ONE);
+  ra_tas : b_tas b' = b_tas b;
+  ra_tls : b_tls b' = b_tls b - bl_l bl;
+  ra_sv : b_asv b' = b_asv b /\ b_lsv b' = b_lsv b;
+  ra_fees : b_grp b' = b_grp b /\ b_prog b' = b_prog b;
+  ra_closed : bl' = bal_empty;
+  ra_pos : ZERO_AMOUNT_THRESHOLD < bl_l bl * b_lsv b / ONE;
+  ra_asset_dust : bl_a bl * b_asv b / ONE < ZERO_AMOUNT_THRESHOLD;
+  ra_range : 0 <= n <= U64_MAX
+}.
+
+Lemma repay_all_inv b bl now b' bl' n :
+  wf_sv b -> wf_bal bl ->
+  repay_all b bl now = Ok (b', bl', n) -> rall_facts b bl b' bl' n.
+Proof.
+  intros [Hasv Hlsv] [Hba Hbl] H. unfold repay_all in H.
+  apply bind_ok in H as ([b0 bl0] & Hc & H).
+  apply claim_emissions_core in Hc as [Hcb Hcl].
+  destruct Hcb as (C1 & C2 & C3 & C4 & C5 & C6 & C7 & _).
+  destruct Hcl as (D1 & D2 & D3 & D4 & D5).
+  apply bind_ok in H as (cur_l & Hcurl & H).
+  assert (Hclr : I128_MIN <= cur_l <= I128_MAX).
+  { unfold get_liability_amount in Hcurl. apply math_ok, cmul_inv in Hcurl as [_ ?]. assumption. }
+  apply get_liability_amount_inv in Hcurl.
+  apply bind_ok in H as (cur_a & Hcur & H).
+  assert (Hcr : I128_MIN <= cur_a <= I128_MAX).
+  { unfold get_asset_amount in Hcur. apply math_ok, cmul_inv in Hcur as [_ ?]. assumption. }
+  apply get_asset_amount_inv in Hcur.
+  apply bind_ok in H as (u1 & Hp & H). apply check_ok in Hp.
+  apply bind_ok in H as (u2 & Hz & H). apply check_ok in Hz.
+  apply bind_ok in H as (blc & Hclose & H).
+  apply bind_ok in H as (nsh & Hnsh & H). apply chk_inv in Hnsh as [Hnsh _].
+  apply bind_ok in H as (b2 & Hb2 & H). apply change_liability_shares_inv in Hb2.
+  apply bind_ok in H as (ce & Hce & H). apply math_ok, cceil_inv in Hce.
+  apply bind_ok in H as (dust & Hdust & H). apply math_ok, csub_inv in Hdust as [Hdust _].
+  apply bind_ok in H as (ins & Hins & H). apply math_ok, cadd_inv in Hins as [Hins _].
+  apply bind_ok in H as (n0 & Hn & H). apply math_ok, to_u64_inv in Hn as [Hn Hnr].
+  apply Ok_inj in H. inversion H; subst b' bl' n; clear H.
+  assert (Hca0 : 0 <= cur_a).
+  { subst cur_a. apply Z.div_pos; [apply Z.mul_nonneg_nonneg; lia | apply ONE_pos]. }
+  assert (Hblc : blc = bal_empty).
+  { unfold balance_close in Hclose. apply bind_ok in Hclose as (? & _ & Hclose). apply Ok_inj in Hclose. auto. }
+  assert (Eca : cur_a = bl_a bl * b_asv b / ONE) by (rewrite Hcur, D4, C1; reflexivity).
+  assert (Ecl : cur_l = bl_l bl * b_lsv b / ONE) by (rewrite Hcurl, D5, C2; reflexivity).
+  pose proof (floor_frac cur_l). pose proof ONE_pos.
+  assert (Hn1 : n0 * ONE = ce).
+  { rewrite Hn, Hce. destruct (cur_l mod ONE =? 0) eqn:F.
+    - pose proof (Z.div_mod cur_l ONE). lia.
+    - replace (cur_l / ONE * ONE + ONE) with ((cur_l / ONE + 1) * ONE) by ring. rewrite Z.div_mul by lia. ring. }
+  constructor; cbn zeta; rewrite <- ?Eca, <- ?Ecl; cbn [b_ins b_tas b_tls b_asv b_lsv b_grp b_prog set_b_ins].
+  - rewrite Hn1. exact Hce.
+  - rewrite Hins, Hdust, Hn1, Hb2. cbn -[Z.mul Z.div Z.modulo Z.add Z.sub ONE]. rewrite C5. lia.
+  - rewrite Hb2. cbn -[Z.mul Z.div Z.modulo Z.add Z.sub ONE]. exact C3.
+  - rewrite Hb2. cbn -[Z.mul Z.div Z.modulo Z.add Z.sub ONE]. rewrite Hnsh, C4, D5. lia.
+  - rewrite Hb2. cbn -[Z.mul Z.div Z.modulo Z.add Z.sub ONE]. split; assumption.
+  - rewrite Hb2. cbn -[Z.mul Z.div Z.modulo Z.add Z.sub ONE]. split; assumption.
+  - exact Hblc.
+  - unfold is_pos_tol in Hp. lia.
+  - apply fabs_small in Hz; [lia|]. rewrite I128_MIN_val. lia.
+  - exact Hnr.
+Qed.
+
+Lemma close_balance_inv b bl now b' bl' :
+  wf_sv b -> wf_bal bl -> close_balance b bl now = Ok (b', bl') ->
+  bl' = bal_empty /\ b_tas b' = b_tas b /\ b_tls b' = b_tls b /\ b_asv b' = b_asv b /\ b_lsv b' = b_lsv b /\
+  b_ins b' = b_ins b /\ b_grp b' = b_grp b /\ b_prog b' = b_prog b /\
+  bl_a bl * b_asv b / ONE < ZERO_AMOUNT_THRESHOLD /\ bl_l bl * b_lsv b / ONE < ZERO_AMOUNT_THRESHOLD.
+Proof.
+  intros [Hasv Hlsv] [Hba Hbl] H. unfold close_balance in H.
+  apply bind_ok in H as ([b0 bl0] & Hc & H).
+  apply claim_emissions_core in Hc as [Hcb Hcl].
+  destruct Hcb as (C1 & C2 & C3 & C4 & C5 & C6 & C7 & _).
+  destruct Hcl as (D1 & D2 & D3 & D4 & D5).
+  apply bind_ok in H as (cur_l & Hcurl & H).
+  assert (Hclr : I128_MIN <= cur_l <= I128_MAX).
+  { unfold get_liability_amount in Hcurl. apply math_ok, cmul_inv in Hcurl as [_ ?]. assumption. }
+  apply get_liability_amount_inv in Hcurl.
+  apply bind_ok in H as (cur_a & Hcur & H).
+  assert (Hcr : I128_MIN <= cur_a <= I128_MAX).
+  { unfold get_asset_amount in Hcur. apply math_ok, cmul_inv in Hcur as [_ ?]. assumption. }
+  apply get_asset_amount_inv in Hcur.
+  apply bind_ok in H as (u1 & Hz1 & H). apply check_ok in Hz1.
+  apply bind_ok in H as (u2 & Hz2 & H). apply check_ok in Hz2.
+  apply bind_ok in H as (blc & Hclose & H).
+  apply pair_ok in H as [<- <-].
+  assert (Hblc : blc = bal_empty).
+  { unfold balance_close in Hclose. apply bind_ok in Hclose as (? & _ & Hclose). apply Ok_inj in Hclose. auto. }
+  assert (Hca0 : 0 <= cur_a).
+  { subst cur_a. apply Z.div_pos; [apply Z.mul_nonneg_nonneg; lia | apply ONE_pos]. }
+  assert (Hcl0 : 0 <= cur_l).
+  { subst cur_l. apply Z.div_pos; [apply Z.mul_nonneg_nonneg; lia | apply ONE_pos]. }
+  apply fabs_small in Hz1; [|rewrite I128_MIN_val; lia]. apply fabs_small in Hz2; [|rewrite I128_MIN_val; lia].
+  rewrite <- C1, <- C2, <- D4, <- D5, <- Hcur, <- Hcurl.
+  repeat split; try assumption; lia.
+Qed.
